@@ -84,7 +84,11 @@ func (a *sideEffectActor) AuthorizePostInbox(c context.Context, w http.ResponseW
 		if iter.IsIRI() {
 			iris = append(iris, iter.GetIRI())
 		} else if t := iter.GetType(); t != nil {
-			iris = append(iris, activity.GetJSONLDId().Get())
+			var iri *url.URL
+			if iri, err = GetId(t); err != nil {
+				return
+			}
+			iris = append(iris, iri)
 		} else {
 			err = fmt.Errorf("actor at index %d is missing an id", i)
 			return
